@@ -806,6 +806,151 @@ def run_direct(spec):
     return s, c
 
 
+# ---------------------------------------------------------------- f_quad_approx regenerated from the source
+
+class Unsupported(Exception):
+    pass
+
+
+def fquad_to_coq(repo=None):
+    """Fail-closed translation of PGM.f_quad_approx (scico/optimize/_pgm.py) into a Coq definition over
+    abstract primitives.  Primitive table (anything else raises Unsupported):
+      x - y (arrays)                          -> vsub
+      self.f(a)                               -> fval a
+      self.f.grad(a)                          -> fgrad a
+      snp.sum(snp.real(snp.conj(a) * b))      -> re_ip a b      (Re <a, b>, all entries)
+      snp.linalg.norm(a)   [exactly one positional argument, no keywords]
+                                              -> norm2 a        (Euclidean norm of the flattened array;
+                                                 norm(a, ord) is NOT this primitive: for a 2-D a, ord=2 is the
+                                                 spectral norm)
+      + * between scalars, e ** 2, the literal 0.5
+    Returns (coq_text, ok, message)."""
+    import ast
+    from vf.common import REPO
+    src = (repo or REPO) / "scico" / "optimize" / "_pgm.py"
+    tree = ast.parse(src.read_text())
+    fn = None
+    for node in ast.walk(tree):
+        if isinstance(node, ast.ClassDef) and node.name == "PGM":
+            for b in node.body:
+                if isinstance(b, ast.FunctionDef) and b.name == "f_quad_approx":
+                    fn = b
+    head = ("(* GENERATED by vf/props/C16.py (fquad_to_coq) from scico/optimize/_pgm.py -- do not edit *)\n"
+            "From SV Require Import Base.Num.\nSection Gen.\n  Context {K : Type} `{NK : Num K}.\n  Variable V : Type.\n"
+            "  Variables (vsub : V -> V -> V) (fval : V -> K) (fgrad : V -> V) (re_ip : V -> V -> K) (norm2 : V -> K).\n")
+    try:
+        if fn is None:
+            raise Unsupported("PGM.f_quad_approx not found")
+        args = [a.arg for a in fn.args.args]
+        if args != ["self", "x", "y", "L"] or fn.args.vararg or fn.args.kwarg or fn.args.kwonlyargs:
+            raise Unsupported(f"signature {args}")
+        kinds = {"x": "V", "y": "V", "L": "K"}
+        lets = []
+
+        def attr_path(e):
+            parts = []
+            while isinstance(e, ast.Attribute):
+                parts.append(e.attr)
+                e = e.value
+            if isinstance(e, ast.Name):
+                parts.append(e.id)
+                return ".".join(reversed(parts))
+            return None
+
+        def call1(e, name):
+            """e is a call of `name` with exactly one positional argument and no keywords."""
+            return (isinstance(e, ast.Call) and attr_path(e.func) == name and len(e.args) == 1 and not e.keywords)
+
+        def tr(e):
+            if isinstance(e, ast.Name):
+                if e.id not in kinds:
+                    raise Unsupported(f"line {e.lineno}: name {e.id}")
+                return e.id, kinds[e.id]
+            if isinstance(e, ast.Constant):
+                if e.value == 0.5 and isinstance(e.value, float):
+                    return "khalf", "K"
+                raise Unsupported(f"line {e.lineno}: literal {e.value!r}")
+            if isinstance(e, ast.BinOp):
+                if isinstance(e.op, ast.Pow):
+                    if isinstance(e.right, ast.Constant) and e.right.value == 2 and isinstance(e.right.value, int):
+                        a, ka = tr(e.left)
+                        if ka == "K":
+                            return f"(kmul {a} {a})", "K"
+                    raise Unsupported(f"line {e.lineno}: power")
+                a, ka = tr(e.left)
+                b, kb = tr(e.right)
+                if isinstance(e.op, ast.Sub) and ka == kb == "V":
+                    return f"(vsub {a} {b})", "V"
+                if isinstance(e.op, ast.Add) and ka == kb == "K":
+                    return f"(kadd {a} {b})", "K"
+                if isinstance(e.op, ast.Mult) and ka == kb == "K":
+                    return f"(kmul {a} {b})", "K"
+                raise Unsupported(f"line {e.lineno}: operator {type(e.op).__name__} on {ka},{kb}")
+            if isinstance(e, ast.Call):
+                path = attr_path(e.func)
+                if path == "self.f" and len(e.args) == 1 and not e.keywords:
+                    a, ka = tr(e.args[0])
+                    if ka == "V":
+                        return f"(fval {a})", "K"
+                if path == "self.f.grad" and len(e.args) == 1 and not e.keywords:
+                    a, ka = tr(e.args[0])
+                    if ka == "V":
+                        return f"(fgrad {a})", "V"
+                if path == "snp.linalg.norm":
+                    if len(e.args) != 1 or e.keywords:
+                        raise Unsupported(f"line {e.lineno}: snp.linalg.norm with an ord/axis argument is not the "
+                                          "Euclidean norm of the flattened array")
+                    a, ka = tr(e.args[0])
+                    if ka == "V":
+                        return f"(norm2 {a})", "K"
+                if call1(e, "snp.sum") and call1(e.args[0], "snp.real"):
+                    m = e.args[0].args[0]
+                    if isinstance(m, ast.BinOp) and isinstance(m.op, ast.Mult) and call1(m.left, "snp.conj"):
+                        a, ka = tr(m.left.args[0])
+                        b, kb = tr(m.right)
+                        if ka == kb == "V":
+                            return f"(re_ip {a} {b})", "K"
+                raise Unsupported(f"line {e.lineno}: call {path}")
+            raise Unsupported(f"line {getattr(e, 'lineno', '?')}: {type(e).__name__}")
+        body = list(fn.body)
+        if body and isinstance(body[0], ast.Expr) and isinstance(body[0].value, ast.Constant) and isinstance(body[0].value.value, str):
+            body = body[1:]
+        ret = None
+        for st in body:
+            if ret is not None:
+                raise Unsupported(f"line {st.lineno}: statement after return")
+            if isinstance(st, ast.Assign) and len(st.targets) == 1 and isinstance(st.targets[0], ast.Name):
+                v, kv = tr(st.value)
+                nm = st.targets[0].id
+                if nm in kinds:
+                    raise Unsupported(f"line {st.lineno}: re-assignment of {nm}")
+                kinds[nm] = kv
+                lets.append(f"let {nm} := {v} in")
+            elif isinstance(st, ast.Return) and st.value is not None:
+                ret, kr = tr(st.value)
+                if kr != "K":
+                    raise Unsupported("return value is not a scalar")
+            else:
+                raise Unsupported(f"line {st.lineno}: statement {type(st).__name__}")
+        if ret is None:
+            raise Unsupported("no return")
+        text = head + "  Definition f_quad_approx_gen (x y : V) (L : K) : K :=\n    " + " ".join(lets) + "\n    " + ret + ".\nEnd Gen.\n"
+        return text, True, ""
+    except Unsupported as u:
+        msg = str(u).replace("*)", "* )")
+        text = head + f"  (* UNSUPPORTED: {msg} *)\n  Definition f_quad_approx_gen : unsupported_construct_in_f_quad_approx := tt.\nEnd Gen.\n"
+        return text, False, msg
+
+
+def regen_fquad(ctx=None):
+    from vf.common import GEN, write_if_changed
+    text, ok, msg = fquad_to_coq()
+    write_if_changed(GEN / "C16_fquad.v", text)
+    if ctx is not None:
+        ctx.obligation(ok, "fail-closed translation of PGM.f_quad_approx (norm must be the Euclidean norm of the flattened array)", msg)
+    return ok
+
+
 # ---------------------------------------------------------------- run
 
 CHECKERS = {
@@ -850,6 +995,7 @@ def eval_items(ctx, items, name="C16", report=True):
 def run(ctx: Ctx):
     import jax
     jax.config.update("jax_enable_x64", True)
+    regen_fquad(ctx)
     if not getattr(ctx, "no_proofs", False):
         ctx.proofs()
         try:
@@ -863,6 +1009,8 @@ def run(ctx: Ctx):
         from vf.common import coq_make
         coq_make(["theories/C16/Exec.vo"])
     ctx.trusted += [
+        "fquad_to_coq (vf/props/C16.py): syntax-directed, fail-closed translation of PGM.f_quad_approx and its primitive "
+        "table (snp.linalg.norm with ONE argument = Euclidean norm of the flattened array; sum(real(conj(a)*b)) = Re<a,b>)",
         "IEEE-754 division/comparison table written out in coq/theories/C16/XR.v (signed zeros, inf, nan); "
         "finite float arithmetic is modelled exactly (no rounding/overflow)",
         "f, grad f, prox_g, f_quad_approx and sqrt are Section variables of the line-search models "
